@@ -56,12 +56,47 @@ func (c *Ctx) ruleM4() {
 		cons := relType(nt) + ".Load#assigns-decoded-list"
 		d := derived(reads, flowOpts{throughCalls: true})
 		assign := func(in ssa.Instruction) bool {
-			st, ok := in.(*ssa.Store)
-			if !ok || !d[st.Val] {
+			if st, ok := in.(*ssa.Store); ok {
+				if !d[st.Val] {
+					return false
+				}
+				fa, ok := st.Addr.(*ssa.FieldAddr)
+				return ok && isRecv(f, fa.X)
+			}
+			// a setter of the same controller given the decoded list
+			call, ok := in.(*ssa.Call)
+			if !ok {
 				return false
 			}
-			fa, ok := st.Addr.(*ssa.FieldAddr)
-			return ok && isRecv(f, fa.X)
+			h := call.Call.StaticCallee()
+			if h == nil || h.Blocks == nil || h.Signature.Recv() == nil || len(call.Call.Args) == 0 || !isRecv(f, call.Call.Args[0]) {
+				return false
+			}
+			for i, a := range call.Call.Args {
+				if i == 0 || !d[a] || i >= len(h.Params) {
+					continue
+				}
+				dp := derived([]ssa.Value{h.Params[i]}, flowOpts{})
+				sets := func(x ssa.Instruction) bool {
+					st, ok := x.(*ssa.Store)
+					if !ok || !dp[st.Val] {
+						return false
+					}
+					fa, ok := st.Addr.(*ssa.FieldAddr)
+					return ok && isRecv(h, fa.X)
+				}
+				anyRet := func(x ssa.Instruction) bool { _, ok := x.(*ssa.Return); return ok }
+				has := false
+				eachInstr(h, func(x ssa.Instruction) {
+					if sets(x) {
+						has = true
+					}
+				})
+				if hit, _ := findPath(h, entry, sets, anyRet, nil); has && hit == nil {
+					return true
+				}
+			}
+			return false
 		}
 		if hit, tr := findPath(f, entry, assign, successNil, nil); hit != nil {
 			c.bad("M4", cons, hit.Pos(), "Load of this access controller can report success without replacing its write list by the one decoded from the address it was asked to load: the store opened from an address then keeps whatever list the controller was constructed with (for instance one supplied by the opener) instead of the one recorded at creation", c.trailStr(tr)...)
